@@ -1531,3 +1531,254 @@ pub fn run_client_tls(_cfg: &ScenCfg, out: &mut RunOut) {
     unsafe { ffi::rodbus_client_channel_destroy(ch) };
     kernel::settle();
 }
+
+// ---------------------------------------------------------------------------
+// C08 / C09 / C18 through the C ABI: a TLS server created with
+// `rodbus_server_create_tls_with_authz`, whose authorization callbacks record the
+// role string they are handed and decide by it. A history of TLS sessions with
+// different role certificates follows; every callback of every session must see
+// exactly the role of that session's certificate, and the reply must follow the
+// callback's decision.
+
+#[derive(Default)]
+struct AzLog {
+    /// (kind, unit, a, b, role bytes as passed, allowed)
+    calls: Vec<(&'static str, u8, u16, u16, Vec<u8>, bool)>,
+    allow_role: Vec<u8>,
+}
+
+unsafe fn az_record(kind: &'static str, u: u8, a: u16, b: u16, role: *const std::os::raw::c_char, c: *mut c_void) -> c_int {
+    let m = &*(c as *const Mutex<AzLog>);
+    let mut g = m.lock().unwrap();
+    let r = if role.is_null() { Vec::new() } else { std::ffi::CStr::from_ptr(role).to_bytes().to_vec() };
+    let ok = r == g.allow_role;
+    g.calls.push((kind, u, a, b, r, ok));
+    if ok {
+        0
+    } else {
+        1
+    }
+}
+extern "C" fn azl_read(u: u8, r: ffi::AddressRange, role: *const std::os::raw::c_char, c: *mut c_void) -> c_int {
+    unsafe { az_record("read", u, r.start, r.count, role, c) }
+}
+extern "C" fn azl_write_range(u: u8, r: ffi::AddressRange, role: *const std::os::raw::c_char, c: *mut c_void) -> c_int {
+    unsafe { az_record("write_range", u, r.start, r.count, role, c) }
+}
+extern "C" fn azl_index(u: u8, i: u16, role: *const std::os::raw::c_char, c: *mut c_void) -> c_int {
+    unsafe { az_record("write_index", u, i, 1, role, c) }
+}
+extern "C" fn azl_destroy(c: *mut c_void) {
+    unsafe { drop(Arc::from_raw(c as *const Mutex<AzLog>)) };
+}
+
+pub fn run_server_tls_authz(_cfg: &ScenCfg, out: &mut RunOut) {
+    use super::tls::{fixture, peer_client_config, ROLE_CERTS};
+    use simtokio::io::{AsyncReadExt, AsyncWriteExt};
+    use tokio_rustls::rustls::pki_types::ServerName;
+    let chunk = chance(1, 2);
+    let sched = chance(1, 2);
+    kernel::with(|w| {
+        w.cfg.sched_random = sched;
+        w.cfg.select_random = sched;
+        w.cfg.chunk_reads = chunk;
+        w.cfg.short_writes = chunk;
+    });
+    let dec_idx = choose(36) as u8;
+    let mut rt = FfiRuntime::new();
+    let map = unsafe { ffi::rodbus_device_map_create() };
+    let wh = Arc::new(Mutex::new(WhCtx::default()));
+    let handler = ffi::WriteHandler {
+        write_single_coil: Some(wh_coil),
+        write_single_register: Some(wh_reg),
+        write_multiple_coils: Some(wh_coils),
+        write_multiple_registers: Some(wh_regs),
+        on_destroy: Some(wh_destroy),
+        ctx: Arc::into_raw(wh.clone()) as *mut c_void,
+    };
+    let (cb, _txc) = db_callback(vec![DbOp::Add(2, 9, 0x1234), DbOp::Add(0, 3, 1)]);
+    unsafe { ffi::rodbus_device_map_add_endpoint(map, 1, handler, cb) };
+    let filter = unsafe { ffi::rodbus_address_filter_any() };
+    let long_role = "R".repeat(200);
+    let real_role = |r: &str| -> Vec<u8> { if r == "LONG" { long_role.as_bytes().to_vec() } else { r.as_bytes().to_vec() } };
+    // the role the application's callbacks allow
+    let allow = real_role(ROLE_CERTS[choose(ROLE_CERTS.len() as u32) as usize].2);
+    let azlog = Arc::new(Mutex::new(AzLog { calls: Vec::new(), allow_role: allow.clone() }));
+    let az = ffi::AuthorizationHandler {
+        read_coils: Some(azl_read),
+        read_discrete_inputs: Some(azl_read),
+        read_holding_registers: Some(azl_read),
+        read_input_registers: Some(azl_read),
+        write_single_coil: Some(azl_index),
+        write_single_register: Some(azl_index),
+        write_multiple_coils: Some(azl_write_range),
+        write_multiple_registers: Some(azl_write_range),
+        on_destroy: Some(azl_destroy),
+        ctx: Arc::into_raw(azlog.clone()) as *mut c_void,
+    };
+    let host = CString::new("10.0.0.1").unwrap();
+    let paths: Vec<CString> = ["ca1_cert.pem", "srv_ok_cert.pem", "srv_ok_key.pem"].iter().map(|f| CString::new(fixture(f).to_str().unwrap()).unwrap()).collect();
+    let empty = CString::new("").unwrap();
+    let tls = ffi::TlsServerConfig {
+        peer_cert_path: paths[0].as_ptr(),
+        local_cert_path: paths[1].as_ptr(),
+        private_key_path: paths[2].as_ptr(),
+        password: empty.as_ptr(),
+        min_tls_version: 0,
+        certificate_mode: 0,
+    };
+    let mut server: *mut rodbus_ffi::Server = std::ptr::null_mut();
+    let rc = unsafe { ffi::rodbus_server_create_tls_with_authz(rt.ptr, host.as_ptr(), 802, filter, 8, map, tls, az, ffi_decode(dec_idx), &mut server) };
+    unsafe {
+        ffi::rodbus_device_map_destroy(map);
+        ffi::rodbus_address_filter_destroy(filter);
+    }
+    if rc != 0 {
+        out.violate("C18", "server_create", format!("rodbus_server_create_tls_with_authz returned {}", rc));
+        return;
+    }
+    kernel::settle();
+    let addr: SocketAddr = "10.0.0.1:802".parse().unwrap();
+    let nsess = 1 + choose(4) as usize;
+    let mut wl = dec_idx as u64;
+    let mut trace: Vec<String> = Vec::new();
+    'sessions: for s in 0..nsess {
+        let (cert, key, role_name) = ROLE_CERTS[choose(ROLE_CERTS.len() as u32) as usize];
+        let role = real_role(role_name);
+        // a role with an interior NUL has no C-string form: the callbacks must not be shown
+        // some other role in its place, so every request of such a session is denied unasked
+        let representable = !role.contains(&0);
+        let allowed = representable && role == allow;
+        hash_bytes(&mut wl, cert.as_bytes());
+        let pcfg = peer_client_config(choose(3), cert, key);
+        // requests of this session: reads and writes
+        let nreq = 1 + choose(3) as usize;
+        let mut reqs: Vec<(u16, Vec<u8>, (&'static str, u16, u16))> = Vec::new();
+        for k in 0..nreq {
+            let tx = (s * 16 + k) as u16 + 1;
+            let (pdu, call): (Vec<u8>, (&'static str, u16, u16)) = match choose(4) {
+                0 => (vec![3, 0, 9, 0, 1], ("read", 9, 1)),
+                1 => (vec![1, 0, 3, 0, 1], ("read", 3, 1)),
+                2 => (vec![6, 0, 9, 0x12, 0x34], ("write_index", 9, 1)),
+                _ => (vec![16, 0, 9, 0, 1, 2, 0x12, 0x34], ("write_range", 9, 1)),
+            };
+            hash_bytes(&mut wl, &pdu);
+            reqs.push((tx, pdu, call));
+        }
+        let replies: Arc<Mutex<Vec<u8>>> = Arc::new(Mutex::new(Vec::new()));
+        let status: Arc<Mutex<Option<bool>>> = Arc::new(Mutex::new(None));
+        {
+            let replies = replies.clone();
+            let status = status.clone();
+            let frames: Vec<Vec<u8>> = reqs.iter().map(|(tx, p, _)| mbap_frame(*tx, 1, p)).collect();
+            simtokio::task::spawn_named("tls-peer-client", async move {
+                let tcp = match simtokio::net::TcpStream::connect(addr).await {
+                    Ok(t) => t,
+                    Err(_) => {
+                        *status.lock().unwrap() = Some(false);
+                        return;
+                    }
+                };
+                let connector = tokio_rustls::TlsConnector::from(pcfg);
+                let mut stream = match connector.connect(ServerName::try_from("test.com").unwrap(), tcp).await {
+                    Ok(s) => s,
+                    Err(_) => {
+                        *status.lock().unwrap() = Some(false);
+                        return;
+                    }
+                };
+                *status.lock().unwrap() = Some(true);
+                for f in frames {
+                    if stream.write_all(&f).await.is_err() {
+                        return;
+                    }
+                    let mut buf = [0u8; 64];
+                    match simtokio::time::timeout(std::time::Duration::from_secs(2), stream.read(&mut buf)).await {
+                        Ok(Ok(n)) if n > 0 => replies.lock().unwrap().extend_from_slice(&buf[..n]),
+                        _ => return,
+                    }
+                }
+            });
+        }
+        let before = azlog.lock().unwrap().calls.len();
+        kernel::run_until(|| false, 2_500 * 1_000_000, 300_000);
+        let desc = format!("C ABI TLS server with authorization callbacks allowing role {:?}; session {} (after {:?}) with certificate {} (role {:?})", String::from_utf8_lossy(&allow), s, trace, cert, role_name);
+        trace.push(cert.trim_end_matches("_cert.pem").trim_end_matches(".pem").to_string());
+        if *status.lock().unwrap() != Some(true) {
+            out.violate("C09", "valid_peer_refused", format!("{}: the TLS handshake failed", desc));
+            break;
+        }
+        let calls: Vec<_> = azlog.lock().unwrap().calls[before..].to_vec();
+        let got = replies.lock().unwrap().clone();
+        let mut want = Vec::new();
+        if !representable {
+            out.probe("ffi_role_with_nul");
+            if let Some(c) = calls.first() {
+                let detail = format!("{}: the role cannot be passed as a C string, yet a callback was handed role {:?}", desc, String::from_utf8_lossy(&c.4));
+                out.violate("C08", "ffi_role_not_from_certificate", detail.clone());
+                out.violate("C18", "ffi_role_not_from_certificate", detail);
+                break;
+            }
+        }
+        for (i, (tx, pdu, call)) in reqs.iter().enumerate() {
+            match calls.get(i) {
+                _ if !representable => {}
+                Some((kind, u, a, b, r, ok)) => {
+                    if r != &role {
+                        let detail = format!("{}: callback {} was handed role {:?}, the certificate says {:?}", desc, i, String::from_utf8_lossy(r), String::from_utf8_lossy(&role));
+                        out.violate("C08", "ffi_role_not_from_certificate", detail.clone());
+                        out.violate("C09", "ffi_role_not_from_certificate", detail.clone());
+                        out.violate("C18", "ffi_role_not_from_certificate", detail);
+                        break 'sessions;
+                    }
+                    if (*kind, *a, *b) != *call || *u != 1 || *ok != allowed {
+                        let detail = format!("{}: callback {} was {:?}, expected {:?} on unit 1", desc, i, (kind, u, a, b, ok), (call, allowed));
+                        out.violate("C08", "ffi_authorization_query", detail.clone());
+                        out.violate("C18", "ffi_authorization_query", detail);
+                        break 'sessions;
+                    }
+                }
+                None => {
+                    let detail = format!("{}: request {} caused no authorization callback (calls {:?})", desc, i, calls.len());
+                    out.violate("C08", "ffi_authorization_not_asked", detail.clone());
+                    out.violate("C18", "ffi_authorization_not_asked", detail);
+                    break 'sessions;
+                }
+            }
+            if allowed {
+                let r: Vec<u8> = match pdu[0] {
+                    3 => vec![3, 2, 0x12, 0x34],
+                    1 => vec![1, 1, 1],
+                    6 => pdu.clone(),
+                    _ => vec![16, 0, 9, 0, 1],
+                };
+                want.extend(mbap_frame(*tx, 1, &r));
+            } else {
+                want.extend(mbap_frame(*tx, 1, &[pdu[0] | 0x80, 1]));
+            }
+            out.ops_checked += 1;
+        }
+        if representable && calls.len() != reqs.len() {
+            out.violate("C08", "ffi_authorization_query", format!("{}: {} requests, {} authorization callbacks", desc, reqs.len(), calls.len()));
+            break;
+        }
+        if got != want {
+            let detail = format!("{}: replies {} expected {}", desc, hex(&got), hex(&want));
+            out.violate("C08", "ffi_authz_reply", detail.clone());
+            out.violate("C18", "ffi_authz_reply", detail);
+            break;
+        }
+        if !allowed && !wh.lock().unwrap().seen.is_empty() {
+            out.violate("C08", "denied_request_had_effect", format!("{}: write handler saw {:?}", desc, wh.lock().unwrap().seen));
+            break;
+        }
+        wh.lock().unwrap().seen.clear();
+        out.probe(if allowed { "ffi_authz_allowed_session" } else { "ffi_authz_denied_session" });
+    }
+    out.nontrivial = Some(wl ^ (nsess as u64) << 56);
+    out.sample = Some(json!({"scenario": "C ABI TLS server with authorization callbacks, session history", "allowed_role": String::from_utf8_lossy(&allow), "sessions": trace}));
+    out.observable.extend(format!("{:?}", azlog.lock().unwrap().calls).into_bytes());
+    unsafe { ffi::rodbus_server_destroy(server) };
+    kernel::settle();
+    rt.destroy();
+}
